@@ -265,12 +265,18 @@ def write_error_code(buffer: Writable, error_code: ErrorCode) -> None:
     write_int16(buffer, error_code.value)
 
 
+def _timedelta_to_milliseconds(value: datetime.timedelta) -> int:
+    # Round to whole milliseconds with integer arithmetic, going through a float of
+    # seconds is inexact for large values.
+    return round(value // datetime.timedelta(microseconds=1), -3) // 1000
+
+
 def write_timedelta_i32(buffer: Writable, value: i32Timedelta) -> None:
-    write_int32(buffer, round(value.total_seconds() * 1000))  # type: ignore[arg-type]
+    write_int32(buffer, _timedelta_to_milliseconds(value))  # type: ignore[arg-type]
 
 
 def write_timedelta_i64(buffer: Writable, value: i64Timedelta) -> None:
-    write_int64(buffer, round(value.total_seconds() * 1000))  # type: ignore[arg-type]
+    write_int64(buffer, _timedelta_to_milliseconds(value))  # type: ignore[arg-type]
 
 
 def write_datetime_i64(buffer: Writable, value: datetime.datetime) -> None:
